@@ -135,6 +135,27 @@ Proof.
   destruct (permitted gl wl gam k); [|discriminate]. cbn [length]. f_equal. eapply IH; eauto.
 Qed.
 
+(* the costs of all assignments of permitted kinds that meet the width limit (depth-first, prefixes shared) *)
+Fixpoint all_costs (gl wl : bool) (W : nat) (gs : list sgate) (st : segs) (c : Q) : list Q :=
+  match gs with
+  | [] => if widths_ok W st then [c] else []
+  | (q1, q2, gam) :: gs' =>
+      flat_map (fun k => if permitted gl wl gam k
+                         then all_costs gl wl W gs' (apply_kind st q1 q2 k) (Qmult c (kind_factor gam k)) else []) kinds
+  end.
+
+Lemma kinds_complete k : In k kinds.
+Proof. destruct k; cbv; tauto. Qed.
+
+Lemma all_costs_complete gl wl W : forall gs A st c st' c',
+  replay gl wl gs A st c = Some (st', c') -> widths_ok W st' = true -> In c' (all_costs gl wl W gs st c).
+Proof.
+  induction gs as [|[[q1 q2] gam] gs IH]; intros [|k A] st c st' c' H Wk; cbn [replay] in H; try discriminate.
+  - inversion H; subst. cbn [all_costs]. rewrite Wk. left; reflexivity.
+  - cbn [all_costs]. apply in_flat_map. exists k. split; [apply kinds_complete|].
+    destruct (permitted gl wl gam k); [|discriminate]. eapply IH; eauto.
+Qed.
+
 (* the boolean check of pruning soundness for one request *)
 Definition min_goal (l : list dstate) : option dstate :=
   match l with [] => None | s :: r => Some (first_min s r) end.
@@ -148,22 +169,19 @@ Definition pruning_check (gs : list gate_spec) (gl wl : bool) (W nq : nat) : boo
   let budget := Nat.min (max_wire_cuts_circuit gs)
                         (max_wire_cuts_gamma (match gr with Some g => gamma_UB g | None => 1%Q end)) in
   let best := min_goal (all_goals (length gs) fa (init_state nq budget)) in
-  forallb (fun A => match assignment_cost nq W gl wl (sgates_of gs) A with
-                    | None => true
-                    | Some c => match gr with
-                                | Some _ => le_opt gr c || le_opt best c
-                                | None => false          (* a feasible assignment exists but greedy dead-ended *)
-                                end
-                    end) (all_assignments (length gs)).
+  forallb (fun c => match gr with
+                    | Some _ => le_opt gr c || le_opt best c
+                    | None => false          (* a feasible assignment exists but greedy dead-ended *)
+                    end) (all_costs gl wl W (sgates_of gs) (segs_init nq) 1%Q).
 
 Lemma pruning_check_sound gs gl wl W mg nq : pruning_check gs gl wl W nq = true -> pruning_sound_for gs gl wl W mg nq.
 Proof.
   unfold pruning_check, pruning_sound_for. cbv zeta. intros H A c HA.
   rewrite forallb_forall in H.
-  assert (LA : length A = length gs).
+  assert (IC : In c (all_costs gl wl W (sgates_of gs) (segs_init nq) 1%Q)).
   { unfold assignment_cost in HA. destruct (replay _ _ _ _ _ _) as [[st c']|] eqn:E; [|discriminate].
-    rewrite (replay_length _ _ _ _ _ _ _ E). unfold sgates_of. now rewrite map_length. }
-  specialize (H A). rewrite <- LA in H. specialize (H (all_assignments_complete A)). rewrite HA in H.
+    destruct (widths_ok W st) eqn:Wk; [|discriminate]. inversion HA; subst c'. eapply all_costs_complete; eauto. }
+  specialize (H c IC).
   set (fa := mkF gs (search_actions gl wl) W) in *.
   destruct (greedy_of fa nq) as [g|] eqn:EG; [|discriminate].
   apply orb_prop in H. destruct H as [H|H].
@@ -172,7 +190,7 @@ Proof.
     assert (SS : search_start fa mg nq = init_state nq (Nat.min (max_wire_cuts_circuit gs) (max_wire_cuts_gamma (gamma_UB g)))).
     { unfold search_start, search_budget. unfold greedy_of in EG.
       destruct (greedy_cut_optimization nq fa) as [o| | |]; try discriminate. subst o. reflexivity. }
-    rewrite SS. rewrite LA in H.
+    rewrite SS.
     destruct (all_goals _ _ _) as [|s r] eqn:EA; [discriminate|].
     pose proof (first_min_in r s) as I. rewrite <- EA in I. apply all_goals_sound in I. destruct I as (R&Gg).
     exists (first_min s r). split; [exact R|split; [exact Gg|now apply Qleb_true]].
@@ -218,6 +236,80 @@ Definition domain_check (lab : nat -> nat * nat) (maxq : nat) (gammas : list Q) 
     forallb (fun nq =>
       forallb (fun W =>
         forallb (fun lo => pruning_check gs (fst lo) (snd lo) W nq) lo_combos)
-        (seq 1 nq))
+        (seq 1 maxq))
       (seq used (S maxq - used)))
     (circuits_upto maxq gammas n).
+
+Lemma domain_check_sound lab maxq gammas n : domain_check lab maxq gammas n = true ->
+  forall c used, In (c, used) (circuits_upto maxq gammas n) ->
+  forall nq W gl wl mg, used <= nq <= maxq -> 1 <= W <= maxq -> In (gl, wl) lo_combos ->
+  pruning_sound_for (gates_from lab 0 c) gl wl W mg nq.
+Proof.
+  unfold domain_check. intros H c used Ic nq W gl wl mg Hn HW Ilo.
+  rewrite forallb_forall in H. specialize (H _ Ic). cbn beta iota in H.
+  rewrite forallb_forall in H. assert (In nq (seq used (S maxq - used))) as Inq by (apply in_seq; lia).
+  specialize (H _ Inq). rewrite forallb_forall in H.
+  assert (In W (seq 1 maxq)) as IW by (apply in_seq; lia).
+  specialize (H _ IW). rewrite forallb_forall in H. specialize (H _ Ilo). cbn [fst snd] in H.
+  now apply pruning_check_sound.
+Qed.
+
+(* the gammas of the domain are >= 1 *)
+Definition domain_gammas_check (maxq : nat) (gammas : list Q) (n : nat) : bool :=
+  forallb (fun cu => forallb (fun g => Qleb 1 (snd g)) (fst cu)) (circuits_upto maxq gammas n).
+
+Lemma gates_from_gammas_ok lab : forall c k, forallb (fun g => Qleb 1 (snd g)) c = true -> gammas_ok (gates_from lab k c).
+Proof.
+  induction c as [|[[a b] gam] r IH]; intros k H g Ig; cbn [gates_from] in Ig; [contradiction|].
+  cbn [forallb snd] in H. apply andb_prop in H as [H1 H2]. destruct Ig as [<-|Ig].
+  - intros q Eq. cbn [g_gamma] in Eq. injection Eq as <-. now apply Qleb_true.
+  - eapply IH; eauto.
+Qed.
+
+(* ---- the finite domain of C08: <= 4 qubits, <= 3 two-qubit gates, gammas {3, 7} ---- *)
+Definition c08_domain : list (list (nat * nat * Q) * nat) := circuits_upto 4 [3%Q; 7%Q] 3.
+
+Lemma c08_domain_checked : forall lab, domain_check lab 4 [3%Q; 7%Q] 3 = true.
+Proof. intros lab. vm_compute. reflexivity. Qed.
+
+Lemma c08_domain_gammas : domain_gammas_check 4 [3%Q; 7%Q] 3 = true.
+Proof. vm_compute. reflexivity. Qed.
+
+Lemma c08_domain_gammas_ok lab c used : In (c, used) c08_domain -> gammas_ok (gates_from lab 0 c).
+Proof.
+  intros I. apply gates_from_gammas_ok. pose proof c08_domain_gammas as H. unfold domain_gammas_check in H.
+  rewrite forallb_forall in H. exact (H _ I).
+Qed.
+
+Lemma pruning_sound_bounded lab c used : In (c, used) c08_domain ->
+  forall nq W gl wl mg, used <= nq <= 4 -> 1 <= W <= 4 -> In (gl, wl) lo_combos ->
+  pruning_sound_for (gates_from lab 0 c) gl wl W mg nq.
+Proof. intros I. exact (domain_check_sound lab 4 [3%Q; 7%Q] 3 (c08_domain_checked lab) c used I). Qed.
+
+(* ------------------------------------------------------------------------------------ *)
+(* flag soundness against the specification                                               *)
+(* ------------------------------------------------------------------------------------ *)
+Lemma flag_sound_spec fuel i r : gammas_ok_in i ->
+  pruning_sound_for (fa_gates (fa_of i)) (fi_gate_lo i) (fi_wire_lo i) (fi_W i) (fi_max_gamma i) (nq_of i) ->
+  find_cuts_full fuel i = Val r -> md_minimum_reached (fr_meta r) = true ->
+  forall A c, assignment_cost (nq_of i) (fi_W i) (fi_gate_lo i) (fi_wire_lo i) (sgates_of (fa_gates (fa_of i))) A = Some c ->
+  (md_overhead (fr_meta r) <= c * c)%Q.
+Proof.
+  intros G PS H F A c HA. destruct (find_cuts_facts _ _ _ G H) as (ro&OF&Hov&Hfl).
+  rewrite Hov. apply sq_le; [apply (of_pos _ _ _ _ _ _ OF)|].
+  destruct (PS A c HA) as [(g&Eg&Lg)|(g&R&Gg&Lg)].
+  - eapply Qle_trans; [|exact Lg]. apply (of_greedy _ _ _ _ _ _ OF). exact Eg.
+  - eapply Qle_trans; [|exact Lg]. apply (of_flag _ _ _ _ _ _ OF); [congruence|exact R|exact Gg].
+Qed.
+
+Lemma flag_sound_bounded fuel i r lab c used : In (c, used) c08_domain ->
+  fa_gates (fa_of i) = gates_from lab 0 c -> used <= nq_of i <= 4 -> 1 <= fi_W i <= 4 ->
+  In (fi_gate_lo i, fi_wire_lo i) lo_combos ->
+  find_cuts_full fuel i = Val r -> md_minimum_reached (fr_meta r) = true ->
+  forall A k, assignment_cost (nq_of i) (fi_W i) (fi_gate_lo i) (fi_wire_lo i) (sgates_of (fa_gates (fa_of i))) A = Some k ->
+  (md_overhead (fr_meta r) <= k * k)%Q.
+Proof.
+  intros I Eg Hn HW Ilo H F. apply (flag_sound_spec fuel i r); auto.
+  - unfold gammas_ok_in. rewrite Eg. eapply c08_domain_gammas_ok; eauto.
+  - rewrite Eg. eapply pruning_sound_bounded; eauto.
+Qed.
